@@ -214,8 +214,8 @@ func genWideFlight(t *rapid.T, L int, d *specgen.Desc) string {
 	}
 	var sizes []int
 	if big >= 0 {
-		X := rapid.OneOf(rapid.IntRange(1100, 1300), rapid.IntRange(1300, 1460), rapid.IntRange(1453, 2400)).Draw(t, "wf-x")
-		X = max(1100, min(X, L-40*(D-1)))
+		X := rapid.OneOf(rapid.IntRange(1150, 1300), rapid.IntRange(1300, 1460), rapid.IntRange(1453, 2400)).Draw(t, "wf-x")
+		X = max(1150, min(X, L-40*(D-1)))
 		rest := split(L-X, D-1)
 		big = min(big, len(rest))
 		sizes = append(append(append(sizes, rest[:big]...), X), rest[big:]...)
@@ -256,13 +256,13 @@ func genWideFlight(t *rapid.T, L int, d *specgen.Desc) string {
 	}
 	switch {
 	case big < 0:
-		return "wide-flight:no-oversize"
+		return "wide-flight:small-datagrams"
 	case nplans > 0 && big >= nplans:
-		return "wide-flight:oversize-beyond-plans"
+		return "wide-flight:big-datagram-beyond-plans"
 	case nplans > 0:
-		return "wide-flight:oversize-within-plans"
+		return "wide-flight:big-datagram-within-plans"
 	default:
-		return "wide-flight:oversize-no-plans"
+		return "wide-flight:big-datagram-no-plans"
 	}
 }
 
@@ -762,7 +762,9 @@ func (m *packMachine) observe(what string, d *quic.VerifPackedDatagram, idx int,
 		}
 		limit = max(limit, udpMin)
 	}
-	if what == "pack" && plan.PacketSize > 0 && len(lp.Frames) > 0 && len(data) > plan.PacketSize && !(m.exBuild && !planned) {
+	if what == "pack" && !m.anyLoss && plan.PacketSize > 0 && len(lp.Frames) > 0 && len(data) > plan.PacketSize && !(m.exBuild && !planned) {
+		// first transmissions only: a retransmission is sized by Config.InitialPacketSize (PackCoalescedPacket has no
+		// per-plan cap on the flight-builder path), which may be larger than the pinned size.
 		// InitialPacketPlan.PacketSize "forces the exact serialized QUIC packet size"; a planned flight datagram was
 		// validated against it (validateInitialFlight, last entry repeats), a pass-through datagram is capped by the
 		// CryptoLength that comes with the PacketSize
